@@ -1,5 +1,6 @@
 import Csproto.Props.C15
 import Csproto.Bridge.LazyWrites
+import Csproto.Bridge.Lazy
 /- axiom audit for C15 -/
 open Csproto
 #print axioms C15.inv_step
@@ -13,3 +14,6 @@ open Csproto
 #print axioms Bridge.writes_classified
 #print axioms C14.reuse_eq_new
 #print axioms C14.closeObj_onlyClears
+#print axioms Bridge.no_package_level_state_mutated
+-- safe mode hands out copies (BytesValue / BytesValues clone, strings are converted): the accessor table the model assumes
+#print axioms Bridge.lazyAccessors_ok
